@@ -547,6 +547,12 @@ func sameValue(a, b ssa.Value) bool {
 			return ca.Value != nil && cb.Value != nil && types.Identical(ca.Type(), cb.Type()) && ca.Value.ExactString() == cb.Value.ExactString()
 		}
 	}
+	// addresses of the same field of the same struct (p.base.field reached through an embedded struct)
+	if fa, okA := a.(*ssa.FieldAddr); okA {
+		if fb, okB := b.(*ssa.FieldAddr); okB {
+			return fa.Field == fb.Field && sameValue(fa.X, fb.X)
+		}
+	}
 	ua, ok1 := a.(*ssa.UnOp)
 	ub, ok2 := b.(*ssa.UnOp)
 	if ok1 && ok2 && ua.Op == token.MUL && ub.Op == token.MUL {
@@ -1226,6 +1232,12 @@ func typedByWriters(p *Prog, x *ssa.TypeAssert) string {
 }
 
 func assertGuard(x *ssa.TypeAssert) string {
+	// go/ssa's nil check for an interface method value (x.M used as a value): typeassert x.(type of x)
+	if !x.CommaOk && types.Identical(x.AssertedType, x.X.Type()) {
+		if why := nonNilInterface(x.X, x, 0); why != "" {
+			return "nil check of a method value: " + why
+		}
+	}
 	for _, bf := range BoolFactsAt(x) {
 		if ex, ok := bf.Subj.(*ssa.Extract); ok && ex.Index == 1 && bf.Val {
 			if ta, ok := ex.Tuple.(*ssa.TypeAssert); ok && ta.CommaOk && sameValue(ta.X, x.X) && types.Identical(ta.AssertedType, x.AssertedType) {
@@ -1426,4 +1438,124 @@ func submatchGroups(coll ssa.Value) (int, bool) {
 		return re.NumSubexp(), true
 	}
 	return 0, false
+}
+
+
+// nonNilInterface: the interface value cannot be nil at the instruction - it is the result of a pandora function all of
+// whose returns wrap a non-nil value, or it was returned together with an error that is known to be nil here.
+func nonNilInterface(v ssa.Value, at ssa.Instruction, depth int) string {
+	if depth > 2 {
+		return ""
+	}
+	switch x := v.(type) {
+	case *ssa.MakeInterface:
+		switch y := x.X.(type) {
+		case *ssa.Alloc, *ssa.MakeClosure, *ssa.Function, *ssa.MakeMap, *ssa.MakeChan, *ssa.MakeSlice:
+			return "a freshly made value"
+		case *ssa.Call:
+			if t, ok := y.Type().Underlying().(*types.Pointer); ok && t != nil {
+				if sc := y.Call.StaticCallee(); sc != nil && len(sc.Blocks) > 0 && allReturnsNonNilPointer(sc) {
+					return "the result of " + sc.Name() + ", which returns a fresh object on every path"
+				}
+			}
+		}
+		if _, isPtr := x.X.Type().Underlying().(*types.Pointer); !isPtr {
+			if _, isIface := x.X.Type().Underlying().(*types.Interface); !isIface {
+				return "a non-pointer value in an interface"
+			}
+		}
+		return ""
+	case *ssa.Call:
+		sc := x.Call.StaticCallee()
+		if sc == nil || len(sc.Blocks) == 0 {
+			return ""
+		}
+		n := 0
+		for _, b := range sc.Blocks {
+			ret, ok := b.Instrs[len(b.Instrs)-1].(*ssa.Return)
+			if !ok || len(ret.Results) == 0 {
+				continue
+			}
+			n++
+			if nonNilInterface(ret.Results[0], ret, depth+1) == "" {
+				return ""
+			}
+		}
+		if n > 0 {
+			return sc.Name() + " returns a non-nil value on every path"
+		}
+	case *ssa.Phi:
+		// v, _, err = f() / v, _, err = g(); if err != nil { return }: every alternative comes with an error that feeds
+		// the same position of one error phi, and that phi is nil here
+		var errPhi *ssa.Phi
+		for i, e := range x.Edges {
+			ex, ok := e.(*ssa.Extract)
+			if !ok {
+				return ""
+			}
+			cl, ok := ex.Tuple.(*ssa.Call)
+			if !ok || cl.Referrers() == nil {
+				return ""
+			}
+			found := false
+			for _, r := range *cl.Referrers() {
+				ee, ok := r.(*ssa.Extract)
+				if !ok || !types.Identical(ee.Type(), types.Universe.Lookup("error").Type()) || ee.Referrers() == nil {
+					continue
+				}
+				for _, r2 := range *ee.Referrers() {
+					if ph, ok := r2.(*ssa.Phi); ok && ph.Block() == x.Block() && i < len(ph.Edges) && ph.Edges[i] == ssa.Value(ee) && (errPhi == nil || errPhi == ph) {
+						errPhi = ph
+						found = true
+					}
+				}
+			}
+			if !found {
+				return ""
+			}
+		}
+		if errPhi != nil {
+			for _, f := range CmpFactsAt(at) {
+				if f.Op == token.EQL && (f.X == ssa.Value(errPhi) && IsNilConst(f.Y) || f.Y == ssa.Value(errPhi) && IsNilConst(f.X)) {
+					return "every alternative was returned together with an error that is nil here"
+				}
+			}
+		}
+		return ""
+	case *ssa.Extract:
+		cl, ok := x.Tuple.(*ssa.Call)
+		if !ok || cl.Referrers() == nil {
+			return ""
+		}
+		// the error of the same call is nil here
+		for _, r := range *cl.Referrers() {
+			ex, ok := r.(*ssa.Extract)
+			if !ok || !types.Identical(ex.Type(), types.Universe.Lookup("error").Type()) {
+				continue
+			}
+			for _, f := range CmpFactsAt(at) {
+				if f.Op == token.EQL && (f.X == ssa.Value(ex) && IsNilConst(f.Y) || f.Y == ssa.Value(ex) && IsNilConst(f.X)) {
+					return "returned together with an error that is nil here"
+				}
+			}
+		}
+	}
+	return ""
+}
+
+func allReturnsNonNilPointer(fn *ssa.Function) bool {
+	n := 0
+	for _, b := range fn.Blocks {
+		ret, ok := b.Instrs[len(b.Instrs)-1].(*ssa.Return)
+		if !ok || len(ret.Results) == 0 {
+			continue
+		}
+		n++
+		switch ret.Results[0].(type) {
+		case *ssa.Alloc:
+		default:
+			return false
+		}
+	}
+	return n > 0
 }
